@@ -8,7 +8,7 @@ P_ODD = 0.0     # extra probability of a key that is not a plain identifier (set
 INT_KEYS = [0, 1, 2, -1, 3]
 FLOAT_KEYS = [1.5, 2.5]
 P_FLOATKEY = 0.08     # probability that the keys of one mapping may also be floats (yaml allows them; they used to break pruning, D34)
-SCALARS = [0, 1, 2, 7, -3, 'p', 'q', '', 'hello world', True, False, None, 1.5, 0.0, 'p', 'q', 1, "f'{b}'", 'true', '12']
+SCALARS = [0, 1, 2, 7, -3, 'p', 'q', '', 'hello world', True, False, None, 1.5, 0.0, 'p', 'q', 1, "f'{b}'", 'true', '12', 'tail\n']
 
 class Vocab:
     """which tag families a generator may use"""
